@@ -528,6 +528,7 @@ class XyeEngine(Engine):
             ta = seams.SimStringIO(ctx=ctx)
             pre = seams.Preemptor(prefixes, {at: cb} if where == "line" else {},
                                   site_points={at: cb} if where == "site" else None)
+            pre.once = True
             ea = pre.run(lambda: self._save(a, ctx, ta, label="save_preempted"))
         if not state.get("ran"):
             ctx.probe("preemption_point_not_reached")
